@@ -184,6 +184,48 @@ theorem spec_iterAccepts_none {strict : Bool} {d : Val} :
   unfold iterAccepts
   cases strict <;> cases hm : d.isMapping <;> cases hs : d.isStr <;> simp
 
+/-! ### `None` as a datum -/
+
+/-- when no leaf turns `None` into something else, no type does: `None` is loaded as `None`
+    or refused (it is no iterable and no mapping) -/
+theorem spec_specLoad_none_datum {W : World} {strict : Bool}
+    (hleaf : ∀ s v, W.scalarLoad strict s .none = .ok v → v = .none) :
+    ∀ (n : Nat) (T : Ty) (v : Val), specLoad W strict n T .none = some v → v = .none := by
+  intro n
+  induction n with
+  | zero => intro T v h; cases h
+  | succ n ih =>
+    intro T v h
+    cases T with
+    | scalar s =>
+      simp only [specLoad] at h
+      cases ho : W.scalarLoad strict s .none <;> rw [ho] at h <;> simp only [okVal] at h <;> try cases h
+      exact hleaf s _ ho
+    | any => simp only [specLoad] at h; cases h; rfl
+    | literal vals =>
+      simp only [specLoad] at h
+      split at h
+      · cases h; rfl
+      · cases h
+    | union cs ks =>
+      simp only [specLoad] at h
+      obtain ⟨pre, c, post, _, _, hc⟩ := spec_firstSome_some.mp h
+      exact ih c v hc
+    | iter f dl e => simp [specLoad, iterAccepts, Val.iterElems, Val.isMapping, Val.isStr] at h
+    | tuple ts => simp [specLoad, iterAccepts, Val.iterElems, Val.isMapping, Val.isStr] at h
+    | dict K V => simp [specLoad] at h
+    | model c => simp [specLoad] at h
+
+/-- … hence the side condition `OptionalOK` holds for every type expression -/
+theorem spec_optionalOK_of_leaves {W : World} {strict : Bool}
+    (hleaf : ∀ s v, W.scalarLoad strict s .none = .ok v → v = .none) (T : Ty) :
+    OptionalOK W strict T := by
+  refine spec_tyAll_of_forall (fun t => ?_) T
+  unfold OptOK
+  split
+  · intro _ _ n v hv; exact spec_specLoad_none_datum hleaf n _ v hv
+  · trivial
+
 /-! ### functional form ⇒ relational form -/
 
 theorem spec_modelFree_parts {T : Ty} (h : ModelFree T) : NotModel T := spec_tyAll_head h
